@@ -18,6 +18,7 @@ ASSUMPTIONS = ['python-hash keymaps (hashmap(algorithm=None), the std default) a
                'flat keymaps without sentinel are only required to discriminate for signatures without *args (statement)']
 
 N = {'quick': 2500, 'thorough': 20000}
+FUZZ_SECONDS = 180      # thorough tier: coverage-guided campaign over the same strategy and oracle (tools/fuzz.py)
 SHARDS = {'quick': 4, 'thorough': 16}
 PATHS = ['fkey', 'keygen', '_keygen', 'call']
 
